@@ -684,6 +684,8 @@ class Molecule(nx.Graph):
 
     def clear(self):
         super().clear()
+        # Interactions refer to atoms: none of them survives the removal of all atoms.
+        self.interactions = defaultdict(list)
         self.max_node = None
 
     def merge_molecule(self, molecule):
